@@ -50,6 +50,9 @@ func normAtom(s string) string {
 // atomsOfCond collects the group atoms tested by a boolean value: equality of a
 // piece of previous-row state with a piece of the current row. fn is the
 // function containing v; recv its receiver.
+// atomsFromNEQ: set while the atoms of an inequality whose false edge guards the delta return are collected.
+var atomsFromNEQ bool
+
 func atomsOfCond(p *core.Prog, v ssa.Value, depth int, out map[string]bool) {
 	if depth > 3 || v == nil {
 		return
@@ -90,7 +93,7 @@ func atomsOfCond(p *core.Prog, v ssa.Value, depth int, out map[string]bool) {
 	}
 	switch x := v.(type) {
 	case *ssa.BinOp:
-		if x.Op == token.EQL {
+		if x.Op == token.EQL || (x.Op == token.NEQ && atomsFromNEQ) {
 			a, b := nameOf(x.X), nameOf(x.Y)
 			// prefer the name on the current-row side (not prefixed by prev)
 			n := a
@@ -225,14 +228,26 @@ func sigOfRegion(p *core.Prog, fn *ssa.Function, idParam ssa.Value, inRegion fun
 		if iff == nil || (inRegion != nil && !inRegion(iff)) {
 			continue
 		}
-		guards := false
+		guards, guardsNeg := false, false
 		for _, r := range deltas {
 			if core.GuardedBy(iff, true, r) {
 				guards = true
 			}
+			if core.GuardedBy(iff, false, r) {
+				guardsNeg = true
+			}
 		}
 		if guards {
 			atomsOfCond(p, iff.Cond, 0, atoms)
+		}
+		// the De Morgan form: `if a != pa || b != pb { raw } else { delta }` — the delta return sits on the false
+		// edges of the inequality tests
+		if guardsNeg {
+			if cmp, ok := iff.Cond.(*ssa.BinOp); ok && cmp.Op == token.NEQ {
+				atomsFromNEQ = true
+				atomsOfCond(p, iff.Cond, 0, atoms)
+				atomsFromNEQ = false
+			}
 		}
 	}
 	var as []string
